@@ -8,8 +8,9 @@ From DDP Require Import Lower.Abi Lower.AbiProofs.
    parameter and for every arity, the signature a C compiler derives from the published header
    convention: same symbol, same ABI class of the result and of every parameter, including the layout
    of everything reachable through a pointer. *)
-Theorem C18_sig_lowering_is_abi : forall s : signature, abi_of_ir (lower_sig s) = abi_of_c (c_sig s).
-Proof. exact sig_lowering_is_abi. Qed.
+Theorem C18_sig_lowering_is_abi : forall s : signature,
+  abi_of_ir (lower_sig s) = abi_of_c (c_sig s) /\ abi_of_ir (lower_sig_imported s) = abi_of_c (c_sig s).
+Proof. exact sig_lowering_is_abi_both. Qed.
 Print Assumptions C18_sig_lowering_is_abi.
 
 (* The published convention itself, as a readable statement about c_sig: primitives by value,
